@@ -56,7 +56,14 @@ impl<'r> Data<'r> {
             if src.is_empty() {
                 None
             } else {
-                Some(decode_field(&mut src))
+                let result = decode_field(&mut src);
+
+                // A field that fails to decode may not advance the source: end the iteration.
+                if result.is_err() {
+                    src = &[];
+                }
+
+                Some(result)
             }
         })
     }
